@@ -53,18 +53,18 @@ CLAIMED = {
         ref="DESIGN.md section 4 C15"),
     "C09": dict(
         technique='Coq proof over an executable model of the card section tree + model/implementation correspondence on random operation sequences',
-        text='Theorems in coq/props/C09.v (35, no axioms): split_subsection_names equals the token-level specification for every key (D13 repaired); add: get/position/frame/ancestors; select after ANY sequence of the 11 operation kinds returns what the last relevant add put there (via history/val, induction over the op list); delete removes the subtree, keeps frame and order, list form verbatim; select/delete (string and list form) fail exactly on an empty key, an empty name anywhere in the path or a missing path, with KeyError and unchanged state; chained select = path select for every card and all names (C09-F1 repaired; only guard: p does not end in a backslash, which would escape the joining slash). Correspondence-only: that the model is the code -- compared after every operation (outcome class, TOC, render, every node, select of every path).',
+        text='Theorems in coq/props/C09.v (38, no axioms): every history theorem is also stated for cards constructed from any template (none / skops / custom dict, any model_diagram) and then edited by any operation sequence (C09_constructed_is_run, C09_constructed_wf, C09_constructed_select_after); split_subsection_names equals the token-level specification for every key (D13 repaired); add: get/position/frame/ancestors; select after ANY sequence of the 11 operation kinds returns what the last relevant add put there (via history/val, induction over the op list); delete removes the subtree, keeps frame and order, list form verbatim; select/delete (string and list form) fail exactly on an empty key, an empty name anywhere in the path or a missing path, with KeyError and unchanged state; chained select = path select for every card and all names (C09-F1 repaired; only guard: p does not end in a backslash, which would escape the joining slash). Correspondence-only: that the model is the code -- compared after every operation (outcome class, TOC, render, every node, select of every path).',
         note='Trusted: Coq kernel/vm_compute; harness/impl_card.py, cardgen.py, the canonical observation in coq/card/Show.v; str() of values.',
         ref='DESIGN.md section 4 C09'),
     "C10": dict(
         technique='Coq proof over an executable model of the card section tree + model/implementation correspondence on random operation sequences',
-        text='coq/props/C10.v (12 theorems): render events = the shown paths (visible, no invisible/folded ancestor) in pre-order with depth, for every reachable card; hidden sections contribute nothing; content wrapped in <details> iff folded, per section variant; save = utf8(render); get_toc = the rendered headings at depth-1 (D14 repaired). Correspondence-only: file bytes, PrettyTable output; copy_files is not exercised.',
+        text='coq/props/C10.v (13 theorems; C10_constructed_render: the render / TOC statements for every card constructed from any template and then edited by any operation sequence): render events = the shown paths (visible, no invisible/folded ancestor) in pre-order with depth, for every reachable card; hidden sections contribute nothing; content wrapped in <details> iff folded, per section variant; save = utf8(render); get_toc = the rendered headings at depth-1 (D14 repaired). Correspondence-only: file bytes, PrettyTable output; copy_files is not exercised.',
         note="Trusted: as C09, plus PrettyTable as an oracle (Section variable) and newline handling of open(..., 'w').",
         ref='DESIGN.md section 4 C10'),
     "C14": dict(
         technique='Coq proof over an executable model of the card section tree and its content builders + model/implementation correspondence on random operation sequences',
-        text='coq/props/C14.v (31 theorems): what is handed to PrettyTable (header = column names, one cell per entry, LF -> <br />, no LF left); metrics in first-seen order with latest value after any call sequence; placement at the given path with the last path part as title for every builder incl. add_model_plot (D16 repaired); default alt text = own title (D17 repaired); one call with several items = one-by-one; headings = keys for every history without a direct .title assignment (refuted with one); add_model_plot: plain visible unfolded section, subsections kept, also after any history, content = description + blank line + processed HTML (None and "" falsy), where the model of re.sub(r"\\n\\s+", "", .) for EVERY string leaves no LF followed by whitespace, only drops whitespace (subsequence), is the identity iff no such pair exists and equals the leftmost/greedy formulation; str.count/str.replace leftmost and non-overlapping; the style attribute is added iff the class name is counted exactly once. Correspondence-only: PrettyTable layout, get_params and estimator_html_repr (oracles: generated adversarial HTML texts and the real sklearn HTML captured from the single call), the \\s set of re = is_space over all code points, dict vs DataFrame incl. typed numpy columns, batch vs one-by-one on the implementation.',
-        note='Trusted: as C09; PrettyTable / get_params / estimator_html_repr oracles. Open: D33 (pandas iteration changes float32/float16/datetime64/None cells). Not covered: add_permutation_importances, add_fairlearn_metric_frame.',
+        text='coq/props/C14.v (50 theorems): what is handed to PrettyTable (header = column names, one cell per entry, LF -> <br />, no LF left); metrics in first-seen order with latest value after any call sequence; placement at the given path with the last path part as title for every builder incl. add_model_plot (D16 repaired); default alt text = own title (D17 repaired); one call with several items = one-by-one; headings = keys for every history without a direct .title assignment (refuted with one); add_model_plot: plain visible unfolded section, subsections kept, also after any history, content = description + blank line + processed HTML (None and "" falsy), where the model of re.sub(r"\\n\\s+", "", .) for EVERY string leaves no LF followed by whitespace, only drops whitespace (subsequence), is the identity iff no such pair exists and equals the leftmost/greedy formulation; str.count/str.replace leftmost and non-overlapping; the style attribute is added iff the class name is counted exactly once. CARD CONSTRUCTION (coq/card/Init.v): Card(model, template, model_diagram) is the run of OAdd / OAddHyperparams / OAddModelPlot on the empty card for every configuration, template, diagram and oracle value (C14_init_is_run, C14_init_plan, C14_init_diagram); error table iff (unknown template name -> ValueError; dict key named like a parameter of Card.add -> TypeError; no card); listed sections present under their last path part; per run over Gen/CardSnapshot.v (harness/card_snapshot.py: SKOPS_TEMPLATE, VALID_TEMPLATES, default sections, Card.add parameter names, behavioural default descriptions) the outline of Card(model): sections = listed keys in listed order, hyperparameter table and diagram at their default paths. Correspondence-only: PrettyTable layout, get_params and estimator_html_repr (oracles: generated adversarial HTML texts and the real sklearn HTML captured from the single call), the \\s set of re = is_space over all code points, dict vs DataFrame incl. typed numpy columns, batch vs one-by-one on the implementation.',
+        note='Trusted: as C09; harness/card_snapshot.py; PrettyTable / get_params / estimator_html_repr oracles. Not modelled: a model given as a path (_load_model), non-str template keys or contents. Open: D33 (pandas iteration changes float32/float16/datetime64/None cells). Not covered: add_permutation_importances, add_fairlearn_metric_frame.',
         ref='DESIGN.md section 4 C14'),
     "C16": dict(
         technique='Coq proof over an fs-operation model + audit-hook correspondence + crash injection',
